@@ -64,8 +64,10 @@ def classify_instability(lang, o1, o2):
         moved = [ln[2:] for ln in difflib.ndiff(l1, l2) if ln[:2] in ("- ", "+ ")]
         if moved and all(m.endswith("\\") or "#define" in m or "while (0)" in m or "while(0)" in m for m in moved):
             return "line-breaks-in-macro-body"
-        if moved and all(m in ("{", "}") or m.endswith("{") or m.startswith("}") for m in moved):
-            return "line-breaks-brace-placement"
+        nd = list(difflib.ndiff(l1, l2))
+        strip = lambda pre: "".join(ln[2:] for ln in nd if ln[:2] == pre).replace("{", "").replace("}", "").replace(" ", "").replace("\t", "")
+        if moved and strip("- ") == strip("+ ") and any(("{" in m or "}" in m) for m in moved):
+            return "line-breaks-brace-placement"      # only the placement of braces relative to line breaks changes
         return "line-breaks"
     nb1 = [t for t in t1 if not (t[0] == "punct" and t[1] in ([123], [125]))]
     nb2 = [t for t in t2 if not (t[0] == "punct" and t[1] in ([123], [125]))]
